@@ -16,11 +16,15 @@ theorem ref_plain (fuel : Nat) (st : State) (σ : Scope) (scopes : List String) 
 
 /-- `@name()` is a call of the configurable, with no caller arguments, under exactly the scope the
     reference is written with, or — for an unscoped reference — under the scope active at the
-    consuming call. -/
+    consuming call (`selfArg` is the instance itself when the configurable is a class). -/
 theorem ref_scope (fuel : Nat) (st : State) (σ : Scope) (scopes : List String) (sel : Sel) :
-    evalVal (fuel + 1) st σ (.ref scopes sel true) =
-      callCfg fuel st sel (if scopes.isEmpty then σ else scopes) [] [] := by
-  simp [evalVal]
+    ∃ selfArg, evalVal (fuel + 1) st σ (.ref scopes sel true) =
+      callCfg fuel st sel (if scopes.isEmpty then σ else scopes) selfArg [] := by
+  refine ⟨(match st.registry.get? sel with
+    | some e => if e.isClass then [.obj (5000 + e.objId)] else []
+    | none => []), ?_⟩
+  simp only [evalVal, if_true]
+  rfl
 
 /-- `%name` is an evaluated reference to the macro configurable under the scope `name`. -/
 theorem macro_is_scoped_ref (fuel : Nat) (st : State) (σ : Scope) (name : String) :
